@@ -15,16 +15,16 @@ from vlib.core import HELD, SKIPPED, VIOLATED, Check, result
 
 METHODS = ["linear", "comoving", "logspace"]
 UNITS = ["kpc", "Mpc", "rad", "deg", "arcmin", "arcsec", "kpc/h", "Mpc/h"]
-COSMOS = [None, "Planck15", "WMAP9", "Planck18", "custom"]
+COSMOS = [None, "Planck15", "WMAP9", "Planck18", "custom", "custom2", "flcdm"]
 
 
-def make_custom_cosmology():
+def make_custom_cosmology(h0=70.0, om0=0.3):
     from astropy.cosmology import FlatLambdaCDM
 
     from yaw.cosmology import CustomCosmology
 
     class MyCosmo(CustomCosmology):
-        _c = FlatLambdaCDM(H0=70.0, Om0=0.3)
+        _c = FlatLambdaCDM(H0=h0, Om0=om0)
 
         def comoving_distance(self, z):
             return self._c.comoving_distance(z).value
@@ -42,6 +42,14 @@ def resolve_cosmology(c):
         return astropy.cosmology.Planck15
     if c == "custom":
         return make_custom_cosmology()
+    if c == "custom2":
+        return make_custom_cosmology(62.0, 0.41)
+    if isinstance(c, str) and c.startswith("flcdm"):
+        # an unnamed astropy model (name None): parameters from the tag "flcdm:<H0>:<Om0>"
+        from astropy.cosmology import FlatLambdaCDM
+
+        parts = c.split(":")
+        return FlatLambdaCDM(H0=float(parts[1]) if len(parts) > 1 else 66.0, Om0=float(parts[2]) if len(parts) > 2 else 0.35)
     if isinstance(c, str):
         return getattr(astropy.cosmology, c)
     return c
@@ -80,6 +88,8 @@ def gen_params(rng):
     if rng.random() < 0.7:
         p["closed"] = str(rng.choice(["left", "right"]))
     cosmo = COSMOS[int(rng.integers(len(COSMOS)))]
+    if cosmo == "flcdm":
+        cosmo = f"flcdm:{rng.uniform(55, 80):.3f}:{rng.uniform(0.2, 0.45):.3f}"
     if cosmo is not None:
         p["cosmology"] = cosmo
     if rng.random() < 0.2:
@@ -90,8 +100,9 @@ def gen_params(rng):
 def realise(p):
     """Turn the JSON-able description into create() keyword arguments."""
     kw = dict(p)
-    if kw.get("cosmology") == "custom":
-        kw["cosmology"] = make_custom_cosmology()
+    c = kw.get("cosmology")
+    if isinstance(c, str) and (c.startswith("custom") or c.startswith("flcdm")):
+        kw["cosmology"] = resolve_cosmology(c)
     return kw
 
 
@@ -132,12 +143,14 @@ def gen_delta(rng, p):
         elif c == "rweight":
             if rng.random() < 0.3:
                 d["rweight"], d["resolution"] = None, None
+            elif rng.random() < 0.3:
+                d["rweight"], d["resolution"] = 0.0, int(rng.choice([1, 10]))  # falsy but valid exponent
             else:
                 d["rweight"], d["resolution"] = float(rng.choice([-1.0, 0.3])), int(rng.choice([2, 20]))
         elif c == "closed":
             d["closed"] = str(rng.choice(["left", "right"]))
         elif c == "cosmology":
-            d["cosmology"] = str(rng.choice(["Planck15", "WMAP9", "Planck18", "WMAP5"]))
+            d["cosmology"] = str(rng.choice(["Planck15", "WMAP9", "Planck18", "WMAP5", "custom", "custom2", "flcdm:71.5:0.27"]))
         elif c == "max_workers":
             d["max_workers"] = int(rng.integers(1, 9))
         elif c == "edges":
@@ -150,7 +163,8 @@ def gen_delta(rng, p):
             elif not custom:
                 d["method"] = p.get("method", "linear")
         elif c == "zmin":
-            d["zmin"] = float(p["zmin"] * rng.uniform(0.0, 1.0))
+            # including the falsy-but-valid value 0.0
+            d["zmin"] = 0.0 if rng.random() < 0.4 else float(p["zmin"] * rng.uniform(0.0, 1.0))
         elif c == "zmax":
             d["zmax"] = float(p["zmax"] + rng.uniform(0.01, 1.0))
         elif c == "num_bins":
@@ -169,12 +183,13 @@ def describe(cfg):
     from yaw.cosmology import CustomCosmology
 
     cosmo = cfg.cosmology
+    fingerprint = round(float(dist_value(cosmo.comoving_distance(1.0))), 6)
     return dict(
         scales=cfg.scales.to_dict(),
         method=str(cfg.binning.method),
         closed=str(cfg.binning.closed),
         edges=cfg.binning.edges.tobytes().hex(),
-        cosmology="custom" if isinstance(cosmo, CustomCosmology) else cosmo.name,
+        cosmology=("custom" if isinstance(cosmo, CustomCosmology) else str(cosmo.name)) + f"@{fingerprint}",
         max_workers=cfg.max_workers,
     )
 
@@ -313,7 +328,7 @@ class C15(Check):
         try:
             cfg = Configuration.create(**realise(p))
         except Exception as e:
-            bad(f"create:raises-{type(e).__name__}:{p.get('method', 'custom')}:{'custom-cosmo' if p.get('cosmology') == 'custom' else 'named-cosmo'}",
+            bad(f"create:raises-{type(e).__name__}:{p.get('method', 'custom')}:{'custom-cosmo' if str(p.get('cosmology', '')).startswith('custom') else ('unnamed-cosmo' if str(p.get('cosmology', '')).startswith('flcdm') else 'named-cosmo')}",
                 dict(params=p, error=f"{type(e).__name__}: {e}"))
             return out
         counters = dict(configs_built=1)
@@ -336,6 +351,17 @@ class C15(Check):
                     and np.shape(got_min) == np.shape(want_min)):
                 bad(f"angle:wrong:{p['unit']}", dict(params=p, z=z, got=[np.asarray(got_min).tolist(), np.asarray(got_max).tolist()],
                                                      want=[want_min.tolist(), want_max.tolist()]))
+                break
+        # the same scales object asked for another cosmology afterwards (and the first one again)
+        import astropy.cosmology as _ac
+
+        for other in (_ac.WMAP5, resolve_cosmology("flcdm:60.0:0.4"), cosmo):
+            z = zs[0]
+            got_min, got_max = cfg.scales.scales.get_angle_radian(z, cosmology=other)
+            want_min, want_max = expected_angles(p, z, other)
+            counters["angle_evals"] = counters.get("angle_evals", 0) + 1
+            if not (np.allclose(got_min, want_min, rtol=1e-12, atol=0) and np.allclose(got_max, want_max, rtol=1e-12, atol=0)):
+                bad(f"angle:wrong-after-other-cosmology:{p['unit']}", dict(params=p, z=z))
                 break
         if cfg.scales.num_scales != len(np.atleast_1d(p["rmin"])):
             bad("scales:num_scales", dict(params=p))
@@ -389,7 +415,8 @@ class C15(Check):
                     dict(params=p, delta=delta, error=f"{type(got).__name__}: {got}"))
                 continue
             dg, dw = describe(got), describe(want)
-            if dw["cosmology"] != "custom":
+            serialisable = all(not str(x.get("cosmology", "")).startswith(("custom", "flcdm")) for x in (merged,))
+            if serialisable:
                 try:
                     if got.to_dict() != want.to_dict():
                         bad("modify:to_dict-differs-from-create", dict(params=p, delta=delta, got=got.to_dict(), want=want.to_dict()))
@@ -419,6 +446,8 @@ class C15(Check):
             # structural equality: a modification that changed scales, edges, closed side or
             # cosmology must not compare equal to the original (max_workers is not part of ==)
             changed = [k for k in ("scales", "edges", "closed", "cosmology") if dg[k] != before[k]]
+            if dg["cosmology"].startswith("custom") and before["cosmology"].startswith("custom") and "cosmology" in changed:
+                changed.remove("cosmology")  # two custom cosmologies always compare equal (documented)
             if changed:
                 try:
                     if got == cfg or not (got != cfg):
